@@ -339,3 +339,43 @@ func ruleGroupTimerIdiom(c *Ctx, r *R) {
 		r.violated("xsync.Group.PeriodicOrTrigger|timer-drain", w.Pos(), "the trigger arm must stop and drain the timer before Reset, or a stale tick causes an extra run")
 	}
 }
+
+var _ = late(func() {
+	p := properties["C17"]
+	p.Rules = append(p.Rules, &Rule{ID: "C17.timer-rearmed", Floor: 2, Clause: "in Periodic and PeriodicOrTrigger the timer is re-armed (Reset) on every path from the select to the next run of f: a path that only drains the timer leaves the periodic schedule dead and the next trigger blocked on an empty timer channel",
+		Run: func(c *Ctx, r *R) {
+			ws := groupWorkers(c)
+			for _, n := range []string{"Periodic", "PeriodicOrTrigger"} {
+				w := ws[n]
+				if w == nil {
+					r.undecided("xsync.Group."+n+"|worker", token.NoPos, "worker closure not found")
+					continue
+				}
+				pf := &PF{N: 2} // 0 = not re-armed since the select, 1 = re-armed
+				pf.Instr = func(f *ssa.Function, in ssa.Instruction, q int) (StateSet, bool) {
+					switch x := in.(type) {
+					case *ssa.Select:
+						if x.Blocking {
+							return ss(0), true
+						}
+					case *ssa.Call:
+						if cal := x.Call.StaticCallee(); cal != nil && cal.Name() == "Reset" && cal.Signature.Recv() != nil && isNamedType(cal.Signature.Recv().Type(), "time", "Timer") {
+							return ss(1), true
+						}
+					}
+					return 0, false
+				}
+				k := 0
+				pf.Visit = func(f *ssa.Function, in ssa.Instruction, before StateSet) {
+					if call, ok := in.(*ssa.Call); ok && isUserF(call) {
+						k++
+						r.ok(before == ss(1), "xsync.Group."+n+"|rearmed-before-f#"+itoa(k), call.Pos(), "f is reached on a path that has not re-armed the timer since the select: the periodic schedule stops, and a later trigger blocks forever draining a timer that never fires")
+					}
+				}
+				pf.Exits(w, ss(1))
+				if k == 0 {
+					r.violated("xsync.Group."+n+"|rearmed-before-f", w.Pos(), "no call of f found")
+				}
+			}
+		}})
+})
